@@ -366,6 +366,15 @@ def w_rules(ctx):
         c03.r9_gone_caller_is_not_a_connection_error(ctx)
         # ... and a stub's request is on record before it is written (the answer may be read before the write returns)
         c03.r3_insert_before_send(ctx)
+        # W13: the value reaches the stub whatever else the connection is doing: the read task keeps one receive future
+        # across select iterations (a reply spanning several reads is not torn when the ping tick fires) (= C05.CANCEL)
+        from . import c05
+        c05.rcancel_receive_is_cancel_safe(ctx)
+        # W14: ... and whatever builder calls configured the client: a builder method that rebuilds the builder (to install
+        # a middleware) copies each field from the field of the same name (a response limit overwritten by the request
+        # limit refuses replies the configured limit admits)
+        from .common import builder_rebuilds_copy_fields_verbatim
+        builder_rebuilds_copy_fields_verbatim(ctx, "C17.W14", r"^jsonrpsee_(http_client::client::HttpClientBuilder|ws_client::WsClientBuilder|core::client::async_client::ClientBuilder|client_transport::ws::WsTransportClientBuilder)\b")
         # W11: the value / error object the server method returned is what is put on the wire: MethodResponse::response
         # serialises the payload it was given (its `inner`, untouched), and a method's answer goes out with HTTP 200 whatever
         # error code it carries (the HTTP client turns any other status into a transport error without reading the body)
